@@ -13,7 +13,7 @@ from . import common as C
 # which property each verdict clause belongs to (first match wins, longest prefixes first)
 CLAUSE_PROP = [
     ("call.hangs", "C01"), ("call.raises", "C01"), ("call.not-a-point", "C01"), ("call.outside-box", "C01"),
-    ("ctor.raises", "C01"), ("mk.raises", "C01"),
+    ("ctor.raises", "C01"), ("mk.raises", "C01"), ("mk.hangs", "C01"),
     ("mk.arity", "C02"), ("mk.tiling", "C02"), ("mk.centre", "C02"), ("mk.widths", "C02"), ("mk.cuts", "C02"),
     ("mk.replay-mismatch", "C02"), ("init.tiling", "C02"), ("init.centre", "C02"), ("init.widths", "C02"),
     ("init.rootbox", "C02"),
@@ -36,7 +36,8 @@ CLAUSE_PROP = [
     ("pair.", None),
 ]
 # clauses that several properties own (checked by each of them)
-ALSO = {"mk.guard-leaf": {"C03", "C06", "C08", "C12"}, "mk.guard-leaf.evidence-discarded": {"C03", "C04", "C06", "C08", "C12"}, "mk.kids-foreign-change": {"C03", "C06"}, "grow.not-fresh": {"C04", "C06"}, "grow.init-not-fresh": {"C04", "C06"},
+ALSO = {"mk.arity": {"C02", "C03"},      # a cell with another number of children than its class documents cannot carry the labels K(i-1)+1..Ki
+        "mk.guard-leaf": {"C03", "C06", "C08", "C12"}, "mk.guard-leaf.evidence-discarded": {"C03", "C04", "C06", "C08", "C12"}, "mk.kids-foreign-change": {"C03", "C06"}, "grow.not-fresh": {"C04", "C06"}, "grow.init-not-fresh": {"C04", "C06"},
         "sweep.new-cell-not-fresh": {"C04", "C08"}, "seq.new-cell-not-fresh": {"C04", "C12"}}
 
 
